@@ -88,6 +88,7 @@ def empty_lol(T, v):
 
 class C03(e1.E1Check):
     id = "C03"
+    l3_table = "C03"
     types_quick = [I, F, B, var(I), var(F), var(B), var(var(I)), reg(2, I), var(reg(2, I)), reg(2, var(I)), opt(I), var(opt(I)),
                    opt(var(I)), opt(var(opt(F))), var(var(opt(I))), reg(0, I), reg(3, I), var(opt(var(I)))]
     types_thorough = types_quick + [var(var(var(I))), reg(2, reg(2, I)), var(var(F)), var(opt(B)), opt(var(var(I))),
@@ -146,6 +147,18 @@ class C03(e1.E1Check):
 
     def expected(self, T, tvs, opname, args):
         return refops.reduce(T, tvs, opname, args[0], bool(args[1]), bool(args[2]))
+
+    def l3_signature(self, T, tvs, label):
+        import re
+        m = re.search(r"axis=(-?\d+)", label)
+        if not m:
+            return {}
+        lo, hi = refops.array_depth(T)
+        ax = int(m.group(1))
+        pos = ax if ax >= 0 else ax + lo
+        return {"innermost": pos == lo - 1, "empty_with_regular": empty_list_of_regular(("var", T), list(tvs)),
+                "empty_inner_list": has_empty_inner(values.strip(list(tvs))), "option_of_list": option_of_list(T),
+                "arg": label.startswith("arg")}
 
     def signature(self, T, tvs, d, names, opname, args, failure):
         tvs = [e for e in tvs]
